@@ -42,6 +42,12 @@ func init() {
 			"One case in forty lengthens one or two of its credentials (any slot: user, password, header/query/form token, API key, preset header) to 100 B, 4 KiB or 64 KiB, with [A-Za-z0-9] filler or filler over the slot's whole alphabet. " +
 			"The required scopes (incl. unsorted, repeated, mixed-case and padded elements) are handed to the authenticator as a copy made per call and compared with the case's own copy. " +
 			"One case in five carries a static query parameter in the base path and/or the path pattern, mostly named like an effective query-located API key (the writer's value is owed to arrive), else 'tenant'. " +
+			"A third stream (quick: 150 per worker, thorough: 1500 per worker; and one loopback case in ten) hands the received request to the REAL server pipeline instead: an API description is generated per case " +
+			"(security definitions: basic, one to three oauth2 schemes, one apiKey definition per key name and location of the case; the operation's requirement, or the description's top-level one, is one to three alternatives of one to three schemes each, " +
+			"every oauth2 scheme with its own scope list), the security.* authenticators are registered with an untyped API next to an authorizer and the operation, and the request goes through middleware.Serve / Context.APIHandler / ServeWithBuilder " +
+			"(after an earlier request with other credentials): every callback consulted must have been handed the case's credential of its kind and the scopes the requirement asks OF ITS scheme (in one of the alternatives naming it), " +
+			"the authorizer a principal that a callback of this request returned, and when a credential for every scheme of the requirement travels at least one callback must be consulted. " +
+			"Four loopback cases in ten set options of the client transport (Debug by field or SetDebug with a silent logger, EnableConnectionReuse, an http.Client of the operation's own): the round trip is owed under each. " +
 			"Four cases in ten consult one *http.Request more than once: 'twice' = each probe's copy is handed to a second, freshly built authenticator of the same kind with other required scopes; " +
 			"'shared' = all probes of the case run on ONE request in two rounds and FailedBasicAuth / OAuth2SchemeName / the callback's context value are re-read at the end; every consultation is judged like the first. " +
 			"Four form bodies in ten carry their Content-Type in another valid spelling of the same media type (charset parameter, capitals, a blank before ';', no blank after it, another parameter before the boundary, quoted boundary, capitalised parameter name), " +
@@ -62,6 +68,7 @@ func init() {
 			"a form's Content-Type is re-spelled only in ways RFC 7231 3.1.1.1 makes equivalent and net/http parses; a malformed Content-Type is not generated",
 			"an oddly spelled client-side key location (anything but exactly 'header' / 'query') is outside 'API-key (header or query)': that the client returns no writer for it, so that the credential is silently not sent and a transport-wide default takes over, is classed (client-apikey-in/...) and not judged; everything else about such a request is judged as usual",
 			"whether a request is built when one of its effective auth writers returns an error is not judged here (C12: pre-send faults); whether an authenticator handed a non-request reports 'not applicable' or an error is not judged, nor are nil requests",
+			"in the pipeline stream only what the application's callbacks and authorizer are handed is judged: which alternative is evaluated, in which order, and the status of the response are C02's; scope lists are compared as sets",
 			"the error returned next to 'not applicable' is not judged; realm and scheme-name markers are judged only where the code documents them (FailedBasicAuth after a missing or refused basic credential, OAuth2SchemeName after an applicable bearer credential)",
 		},
 		MinNontrivial: 500,
@@ -122,6 +129,14 @@ type Case struct {
 
 	// Stretch lengthens credentials of the case (recipes, so that recorded cases stay small); see expand.
 	Stretch []Stretch `json:"stretch,omitempty"`
+
+	// ClientOpts are settings of the client transport that are no credentials (see clientOpts): the round trip is owed
+	// under every one of them. Only Runtime.Submit (TCP cases) looks at most of them.
+	ClientOpts []string `json:"client_opts,omitempty"`
+	// Pipe: the received request is not handed to authenticators one by one, but to the real server pipeline (router,
+	// security, binder, operation) built over an API description whose operation carries a security requirement; the
+	// authenticators are registered with the API and consulted by the middleware (see pipeline.go).
+	Pipe *Pipe `json:"pipeline,omitempty"`
 
 	orig *Case // set on the expanded working copy: the recorded (compact) form of the case
 }
@@ -323,6 +338,7 @@ func buildOperation(c *Case, host string) (*client.Runtime, *runtime.ClientOpera
 			op.AuthInfo = writersOf(c.OpAuth, c.OpCompose, "op")
 		}
 	}
+	applyClientOpts(c, rt, op)
 	return rt, op
 }
 
@@ -478,6 +494,7 @@ type observation struct {
 	failedRealm string
 	schemeName  string
 	ctxMarker   interface{}
+	pipe        *pipeObs // kind "pipeline": what the authenticators registered with the API, the authorizer and the operation saw
 }
 
 func probesOf(c *Case) []probe {
@@ -646,6 +663,9 @@ func spellKeyName(c *Case, p probe) string {
 }
 
 func probeAll(c *Case, fresh func() (*http.Request, error)) ([]observation, error) {
+	if c.Pipe != nil {
+		return pipeProbe(c, fresh)
+	}
 	var out []observation
 	switch c.Reuse {
 	case "shared":
@@ -838,6 +858,7 @@ func runCase(m *mon.M, c *Case) {
 		return
 	}
 	c = x // the working copy; rep(c) is the recorded form
+	defer resetClientOpts(c)
 	e := expect(c)
 	if e.ctorPanic != "" {
 		m.Violate("client-panic/apikey-writer-constructor", "client.APIKeyAuth panicked: "+e.ctorPanic, rep(c))
@@ -941,6 +962,9 @@ func runCase(m *mon.M, c *Case) {
 		m.Class("form-content-type/" + c.FormKind + "/" + c.CTSpell + "-via-" + c.CTVia)
 	}
 	classOddIn(m, c, e)
+	for _, o := range c.ClientOpts {
+		m.Class("client-option/" + channel(c) + "/" + o)
+	}
 	for _, st := range rep(c).Stretch {
 		m.Class("long-credential/" + channel(c) + "/" + sizeClass(st.Len))
 	}
@@ -1073,6 +1097,10 @@ func judge(m *mon.M, c *Case, e *expectation, o *observation) {
 		judgeMarkers(m, c, e, o)
 		return
 	}
+	if o.p.kind == "pipeline" {
+		judgePipe(m, c, e, o)
+		return
+	}
 	lab := o.p.label()
 	ch := channel(c)
 	// a refuting observation of a LATER consultation of the same *http.Request gets its own signature
@@ -1080,6 +1108,8 @@ func judge(m *mon.M, c *Case, e *expectation, o *observation) {
 	if o.round > 1 {
 		again = "/request-consulted-again"
 	}
+	// ... and so does a credential that does not arrive as written while the transport dumps what it sends (see optFeature)
+	sent := again + optFeature(c)
 	if o.panicked != "" {
 		m.Violate(lab+"/authenticator-panic"+again, "Authenticate panicked: "+o.panicked, rep(c))
 		return
@@ -1136,7 +1166,7 @@ func judge(m *mon.M, c *Case, e *expectation, o *observation) {
 			if called {
 				got = fmt.Sprintf(" callback got (%s,%s)", qclip(o.calls[0].a), qclip(o.calls[0].b))
 			}
-			m.Violate(lab+"/applied-without-credential/"+why+again, describe()+got, rep(c))
+			m.Violate(lab+"/applied-without-credential/"+why+sent, describe()+got, rep(c))
 			return
 		}
 		if o.principal != nil {
@@ -1152,11 +1182,11 @@ func judge(m *mon.M, c *Case, e *expectation, o *observation) {
 	if !called || !o.applies {
 		if called && c.Outcome == "none" {
 			// the callback WAS shown the credential and answered (nil, nil): "not applicable" is reserved for requests without the credential
-			m.Violate(lab+"/not-applicable-although-callback-consulted/outcome-none"+again, describe(), rep(c))
+			m.Violate(lab+"/not-applicable-although-callback-consulted/outcome-none"+sent, describe(), rep(c))
 		} else if src == "default" {
-			m.Violate(lab+"/default-auth-not-applied"+again, describe(), rep(c))
+			m.Violate(lab+"/default-auth-not-applied"+sent, describe(), rep(c))
 		} else {
-			m.Violate(lab+"/not-applied-although-sent/"+src+"/"+feat+again, describe()+fmt.Sprintf(" expected (%s,%s)", qclip(wa), qclip(wb)), rep(c))
+			m.Violate(lab+"/not-applied-although-sent/"+src+"/"+feat+sent, describe()+fmt.Sprintf(" expected (%s,%s)", qclip(wa), qclip(wb)), rep(c))
 		}
 		return
 	}
@@ -1173,7 +1203,7 @@ func judge(m *mon.M, c *Case, e *expectation, o *observation) {
 				sig = "bearer/precedence/" + s + "-beats-" + strings.SplitN(src, ":", 2)[0]
 			}
 		}
-		m.Violate(sig+again, describe()+fmt.Sprintf(" callback got (%s,%s), expected (%s,%s)%s", qclip(ga), qclip(gb), qclip(wa), qclip(wb), diffAt(ga+"\x00"+gb, wa+"\x00"+wb)), rep(c))
+		m.Violate(sig+sent, describe()+fmt.Sprintf(" callback got (%s,%s), expected (%s,%s)%s", qclip(ga), qclip(gb), qclip(wa), qclip(wb), diffAt(ga+"\x00"+gb, wa+"\x00"+wb)), rep(c))
 	}
 	if o.p.kind == "bearer" && !sameScopes(o.calls[0].scopes, o.scopes) {
 		m.Violate("bearer/scopes-differ"+again, describe()+fmt.Sprintf(" callback got scopes %q, required %q", o.calls[0].scopes, o.scopes), rep(c))
@@ -1536,6 +1566,19 @@ func run(m *mon.M) {
 	for i := 0; i < nt; i++ {
 		c := genCase(rt)
 		c.TCP = true
+		addClientOpts(rt, c) // settings of the transport that only Submit looks at
+		if rt.Intn(10) == 0 {
+			addPipe(rt, c)
+		}
+		m.Begin(c)
+		runCase(m, c)
+	}
+	// the same cases, received by the real server pipeline over a description with a security requirement (no socket)
+	rp := m.Rand("pipeline")
+	np := m.N(150, 1500)
+	for i := 0; i < np; i++ {
+		c := genCase(rp)
+		addPipe(rp, c)
 		m.Begin(c)
 		runCase(m, c)
 	}
